@@ -40,6 +40,21 @@ def trusted_macros(repo):
     return res
 
 
+_read_cache = {}
+
+
+def _read(f):
+    """the evaluation with helpers that build its result (`return Thm(..)` in a function of the same module, class or
+    defined inside it) expanded in place (sa/inline.py)"""
+    from ..inline import inlined
+    if id(f.node) not in _read_cache:
+        def builds(h):
+            return any(isinstance(r, ast.Return) and r.value is not None and
+                       any(isinstance(c, ast.Call) and call_name(c) == 'Thm' for c in ast.walk(r.value)) for r in ast.walk(h.node))
+        _read_cache[id(f.node)] = (f, inlined(f, builds)[0])
+    return _read_cache[id(f.node)][1]
+
+
 def closure(repo, func, depth=6):
     fs = repo.reachable_funcs([func], depth=depth)
     return [f for f in fs if f.module.rel.startswith(EXACT_DIRS) or f is func]
@@ -173,7 +188,7 @@ class SiteFinder:
 def rule_t1(repo):
     t1 = RuleResult('C05.T1', 'a goal-derived term reaches a numeric evaluator only on paths that pin the term to that evaluator\'s number type', floor=9)
     for mi in trusted_macros(repo):
-        f = mi.eval
+        f = _read(mi.eval)
         goal = f.params()[1]
         sf = SiteFinder(repo)
         sf.visit(f, goal, set(), [f.qualname])
@@ -197,7 +212,7 @@ def rule_t1(repo):
 def rule_t2(repo):
     t2 = RuleResult('C05.T2', 'every path of a trusted evaluator to an asserted sequent tests the shape of the goal', floor=9)
     for mi in trusted_macros(repo):
-        f = mi.eval
+        f = _read(mi.eval)
         goal = f.params()[1]
         rets = _thm_return_nodes(f)
         need(rets, '%s: eval has no `return Thm(...)`' % mi.key)
